@@ -9,6 +9,11 @@
    {"op":"rename","vals":[[id,name]..],"pairs":[[id,target]..]}  -> {"ok":[name..]} | {"err":s}
    {"op":"materialize","inputs":[s..],"inits":[s..],"refs":[s..],"params":[s..]} -> [rendered name..]
    {"op":"predict","double":b,"args":[{"dtype":c,"dims":[s..],"nchw":b,"used":b}..]} -> [[name,dtype,[dims]]..]
+   {"op":"outdims","outs":[{"dims":[s..],"nchw":b,"complex":b}..]}          -> [[dims]..]   predictOutDims
+   {"op":"history","outs":[id..],"decl":[[id,dtype,[dims]]..],
+    "steps":[{"k":"rauw","old":i,"new":j} | {"k":"setDecl","v":i,"dtype":c,"dims":[s..]} | {"k":"remove","vs":[i..]}]}
+        -> {"ok":b,"badSteps":[k..],"outs":[id..],"iface":[[class,[dims]]..]}   run / runChecked / iface
+        (declarations are abstracted to (class of the element type, dims) — `Decl.abstract`)
 -/
 import Lean.Data.Json
 import J2O.Model.C05
@@ -87,6 +92,28 @@ def handle (j : Json) : Except String Json := do
       return (⟨← getNat e "dtype", ← strList (← getArr e "dims"), ← getBool e "nchw", ← getBool e "used"⟩ : ArgSpec))
     return jarr ((predictInputs double args).map (fun p =>
       jarr [Json.str p.name, jnat p.dtype, jarr (p.dims.map Json.str)]))
+  | "outdims" =>
+    let outs ← (← getArr j "outs").toList.mapM (fun e => do
+      return (← strList (← getArr e "dims"), ← getBool e "nchw", ← getBool e "complex"))
+    return jarr (outs.map (fun o => jarr ((predictOutDims o.1 o.2.1 o.2.2).map Json.str)))
+  | "history" =>
+    let outs ← (← getArr j "outs").toList.mapM (·.getNat?)
+    let decl ← (← getArr j "decl").toList.mapM (fun r => do
+      let a ← r.getArr?
+      return ((← a[0]!.getNat?), (⟨← a[1]!.getNat?, ← strList (← a[2]!.getArr?)⟩ : Decl).abstract))
+    let steps ← (← getArr j "steps").toList.mapM (fun e => do
+      match (← getStr e "k") with
+      | "rauw" => return Step.rauw (← getNat e "old") (← getNat e "new") true
+      | "setDecl" => return Step.setDecl (← getNat e "v") (Decl.abstract ⟨← getNat e "dtype", ← strList (← getArr e "dims")⟩)
+      | _ => return Step.remove (← (← getArr e "vs").toList.mapM (·.getNat?)))
+    let s0 : GState := ⟨outs, declOfList decl⟩
+    let s1 := run s0 steps
+    let ok := (runChecked s0 steps).isSome
+    let jd (d : Option Decl) : Json := match d with
+      | some d => jarr [jnat d.dtype, jarr (d.dims.map Json.str)]
+      | none => Json.null
+    return Json.mkObj [("ok", jbool ok), ("badSteps", jarr ((badSteps s0 steps 0).map jnat)),
+                       ("outs", jarr (s1.outs.map jnat)), ("iface", jarr ((iface s1).map jd))]
   | op => throw s!"unknown op {op}"
 
 def step (line : String) : String :=
